@@ -896,6 +896,14 @@ func (jc *judgeCtx) openOpts(j *imageJob) OpenOpts {
 	if j.allowed.opts.Rollover > 0 {
 		o.Rollover = j.allowed.opts.Rollover
 	}
+	// "opening the directory with Recover" leaves the other options open: a quarter of the images
+	// is recovered together with an eager migration to V1, a quarter to V2
+	switch j.evIdx % 4 {
+	case 1:
+		o.Eager, o.NewVer = true, 1
+	case 3:
+		o.Eager, o.NewVer = true, 2
+	}
 	return o
 }
 
